@@ -174,6 +174,13 @@ class Deque(list):
     """collections.deque as a list with the deque methods"""
 
 
+class DefaultDict(dict):
+    """collections.defaultdict / Counter: a dictionary whose missing keys are produced by `factory` (a callable of the interpreter,
+    or None for Counter's 0)"""
+    factory = None
+    counter = False
+
+
 class PyFn:
     """a callable of the standard library built from interpreted pieces (attrgetter, partial, ...)"""
 
@@ -193,6 +200,7 @@ SAFE_METHODS = {
     list: {"append", "extend", "pop", "insert", "index", "copy", "count", "reverse", "sort", "remove", "clear"},
     Deque: {"append", "extend", "pop", "insert", "index", "copy", "count", "reverse", "remove", "clear"},
     dict: {"get", "items", "keys", "values", "pop", "setdefault", "update", "copy"},
+    DefaultDict: {"get", "items", "keys", "values", "pop", "setdefault", "update", "copy", "most_common", "elements", "total"},
     set: {"add", "update", "discard", "remove", "copy", "union", "intersection", "difference", "issubset"},
     bytes: {"startswith", "endswith", "decode", "split", "splitlines", "strip", "count", "find", "hex", "join"},
     str: {"startswith", "endswith", "strip", "lstrip", "rstrip", "lower", "upper", "casefold", "isspace", "split", "join", "replace",
@@ -217,6 +225,7 @@ class MiniInterp:
     # ------------------------------------------------------------------ entry
     def call(self, fi: FuncInfo, args: list, kwargs: dict | None = None, self_obj=None):
         kwargs = kwargs or {}
+        fi = self.prj.funcs.get(fi.qual, fi)      # the function as written (not the view with helpers inlined): every call is followed and seen by the hook
         memo_key = None
         if any((attr_chain(d.func if isinstance(d, ast.Call) else d) or "").split(".")[-1] in ("lru_cache", "cache") for d in fi.node.decorator_list):
             def kk(v):
@@ -413,6 +422,39 @@ class MiniInterp:
             return
         if isinstance(st, ast.Assert):
             return
+        if isinstance(st, ast.Delete):
+            for t in st.targets:
+                if isinstance(t, ast.Name):
+                    if t.id not in env:
+                        raise PyRaise("NameError", st)
+                    del env[t.id]
+                elif isinstance(t, ast.Attribute):
+                    obj = self.ev(t.value, env, fi)
+                    if not isinstance(obj, Sym):
+                        raise Unknown("del of an attribute of this value")
+                    if t.attr not in obj.fields:
+                        raise PyRaise("AttributeError", st)
+                    del obj.fields[t.attr]
+                elif isinstance(t, ast.Subscript):
+                    obj = self.ev(t.value, env, fi)
+                    if not isinstance(obj, (list, dict)):
+                        raise Unknown("del of an item of this value")
+                    if isinstance(t.slice, ast.Slice):
+                        lo = self.ev(t.slice.lower, env, fi) if t.slice.lower is not None else None
+                        hi = self.ev(t.slice.upper, env, fi) if t.slice.upper is not None else None
+                        stp = self.ev(t.slice.step, env, fi) if t.slice.step is not None else None
+                        if not isinstance(obj, list) or not all(x is None or isinstance(x, int) for x in (lo, hi, stp)):
+                            raise Unknown("del of this slice")
+                        del obj[lo:hi:stp]
+                    else:
+                        k = self.ev(t.slice, env, fi)
+                        try:
+                            del obj[self.key(k) if isinstance(obj, dict) else k]
+                        except (KeyError, IndexError, TypeError) as e:
+                            raise PyRaise(EXC_OF.get(type(e), "Exception"), st)
+                else:
+                    raise Unknown("del target")
+            return
         raise Unknown(f"statement {type(st).__name__} at line {getattr(st, 'lineno', '?')}")
 
     def match_pattern(self, p, v, binds, env, fi) -> bool:
@@ -553,7 +595,19 @@ class MiniInterp:
         """dictionary key: symbolic objects are keyed by identity (a project class with its own __eq__ as a
         dictionary key is outside the fragment)"""
         if isinstance(k, Sym) and k.cls is not None and k.cls.find_method("__eq__") is not None:
-            raise Unknown(f"instance of {k.cls.name} (own __eq__) used as a dictionary key")
+            # keys that define their own equality: the first key of every class of equal keys represents the class (Python looks
+            # keys up by __hash__/__eq__; for a coherent pair that is the same as looking up the representative). Valid while
+            # the objects used as keys are not modified in between, which is also what Python requires of dictionary keys.
+            if k.cls.find_method("__hash__") is None:
+                raise PyRaise("TypeError")      # __eq__ without __hash__: unhashable
+            reps = self.__dict__.setdefault("_keyreps", [])
+            for r in reps:
+                if r is k or (r.cls is k.cls and self.equal(r, k)):
+                    return r
+            reps.append(k)
+            return k
+        if isinstance(k, tuple) and type(k) is tuple and any(isinstance(x, Sym) and x.cls is not None for x in k):
+            return tuple(self.key(x) for x in k)
         return k
 
     # ----------------------------------------------------------------- equality / sets
@@ -567,7 +621,7 @@ class MiniInterp:
             if isinstance(x, Sym) and x.cls is not None:
                 m = x.cls.find_method("__eq__")
                 if m is not None:
-                    r = self.call(self.prj.func(m.qual), [y], {}, x)
+                    r = self.call(self.prj.func(m.qual, raw=True), [y], {}, x)
                     if r is NOTIMPL:
                         continue
                     return self.truth(r)
@@ -627,7 +681,7 @@ class MiniInterp:
             for nm in ("__bool__", "__len__"):
                 m = v.cls.find_method(nm)
                 if m is not None:
-                    r = self.call(self.prj.func(m.qual), [], {}, v)
+                    r = self.call(self.prj.func(m.qual, raw=True), [], {}, v)
                     return bool(r) if isinstance(r, (bool, int)) else self.truth(r)
         if isinstance(v, (Sym, Closure, BoundFunc)):
             return True
@@ -664,6 +718,15 @@ class MiniInterp:
                 else:
                     m = Sym(f"{ci.name}.{st.targets[0].id}", _cls=ci)
                     m.fields.update(name=st.targets[0].id, value=val)
+                    # a data mixin (class X(SomeNamedTuple / dataclass, Enum)): the member's value supplies the mixin's fields
+                    mix = next((b for b in ci.mro()[1:] if b.dataclass_fields() is not None), None)
+                    if mix is not None and isinstance(val, tuple):
+                        names = [f for f, _ in mix.dataclass_fields()]
+                        if len(names) == len(val):
+                            for fn_, fv in zip(names, val):
+                                m.fields[fn_] = fv
+                            if any(c.is_namedtuple() for c in mix.mro()):
+                                m.tuple_order = names
                     out.append((st.targets[0].id, m))
         cache[ci.qual] = out
         return out
@@ -675,16 +738,48 @@ class MiniInterp:
                 if ms is not None:
                     return [m for _, m in ms]
             raise Unknown(f"iteration over {v[0]}")
-        if isinstance(v, (list, tuple, str, range, set, frozenset)):
+        if isinstance(v, (set, frozenset)):
+            # a model order (never CPython's hash order, which varies with PYTHONHASHSEED); reversed on request
+            try:
+                xs = sorted(v, key=lambda x: (type(x).__name__, x))
+            except TypeError:
+                xs = sorted(v, key=repr)
+            return xs[::-1] if getattr(self, "reverse_sets", False) else xs
+        if isinstance(v, (list, tuple, str, range)):
             return list(v)
         if isinstance(v, dict):
             return list(v.keys())
         if isinstance(v, (_Iter, LazyIter)):
             return v.rest()
         if isinstance(v, ISet):
-            return list(v.xs)
+            return list(v.xs)[::-1] if getattr(self, "reverse_sets", False) else list(v.xs)
         if isinstance(v, Sym) and getattr(v, "tuple_order", None):
             return [v.fields[k] for k in v.tuple_order]
+        if isinstance(v, Sym) and v.cls is not None:
+            it_m = v.cls.find_method("__iter__")
+            if it_m is not None:
+                r = self.call(self.prj.func(it_m.qual, raw=True), [], {}, v)
+                if r is v or (isinstance(r, Sym) and r.cls is not None and r.cls.find_method("__next__") is not None and r.cls.find_method("__iter__") is not None
+                              and not isinstance(r, (_Iter, LazyIter))):
+                    nx = r.cls.find_method("__next__")
+                    if nx is None:
+                        raise PyRaise("TypeError")
+                    out = []
+                    while True:
+                        self.tick()
+                        try:
+                            out.append(self.call(self.prj.func(nx.qual, raw=True), [], {}, r))
+                        except PyRaise as e:
+                            if e.name == "StopIteration":
+                                break
+                            raise
+                    return out
+                return self.iterate(r)
+            gi = v.cls.find_method("__getitem__")
+            if gi is not None and v.cls.find_method("__len__") is not None:
+                n = self.call(self.prj.func(v.cls.find_method("__len__").qual, raw=True), [], {}, v)
+                if isinstance(n, int):
+                    return [self.call(self.prj.func(gi.qual, raw=True), [i], {}, v) for i in range(n)]
         if v is None or isinstance(v, (bool, int, float)):
             raise PyRaise("TypeError")               # not iterable
         raise Unknown(f"iteration over {type(v).__name__}")
@@ -822,6 +917,13 @@ class MiniInterp:
                 try:
                     return obj[self.key(k) if isinstance(obj, dict) else k]
                 except (KeyError, IndexError, TypeError) as e:
+                    if isinstance(e, KeyError) and isinstance(obj, DefaultDict):
+                        if obj.counter:
+                            return 0
+                        if obj.factory is not None:
+                            v = self.apply2(obj.factory, [], {})
+                            obj[self.key(k)] = v
+                            return v
                     raise PyRaise(EXC_OF.get(type(e), "Exception"), n)
             if isinstance(obj, Sym) and getattr(obj, "tuple_order", None) and isinstance(k, int):
                 return obj.fields[obj.tuple_order[k]]
@@ -833,7 +935,7 @@ class MiniInterp:
             if isinstance(obj, Sym) and obj.cls is not None and not obj.open:
                 gi = obj.cls.find_method("__getitem__")
                 if gi is not None:
-                    return self.call(self.prj.func(gi.qual), [k], {}, obj)
+                    return self.call(self.prj.func(gi.qual, raw=True), [k], {}, obj)
                 if not obj.cls.external_bases():
                     raise PyRaise("TypeError", n)    # an instance of a project class without __getitem__ is not subscriptable
             if obj is None or isinstance(obj, (bool, int, float)):
@@ -972,7 +1074,7 @@ class MiniInterp:
                 m = obj.cls.find_method(attr)
                 if m is not None:
                     if m.is_property():
-                        return self.call(self.prj.func(m.qual), [], {}, obj)
+                        return self.call(self.prj.func(m.qual, raw=True), [], {}, obj)
                     if m.is_classmethod():
                         return BoundFunc(m, T("class", obj.cls))
                     return BoundFunc(m, obj)
@@ -980,9 +1082,13 @@ class MiniInterp:
                     if (c.qual, attr) not in self.class_state and attr in c.class_attrs and c.class_attrs[attr] is not None:
                         # the class body is executed once: every instance sees the same object
                         f0 = next(iter(c.methods.values()), fi)
-                        self.class_state[(c.qual, attr)] = self.ev(c.class_attrs[attr], {}, f0)
+                        self.class_state[(c.qual, attr)] = self.ev(c.class_attrs[attr], self.class_namespace(c), f0)
                     if (c.qual, attr) in self.class_state:
                         val = self.class_state[(c.qual, attr)]
+                        if isinstance(val, T) and val[0] == "partialmethod":
+                            return PyFn(f"bound {attr}", lambda a, k, val=val, obj=obj: self.call_callable(
+                                val[1] if not (isinstance(val[1], BoundFunc) and val[1].fi.is_method()) else BoundFunc(val[1].fi, None),
+                                [obj] + list(val[2]) + list(a), {**dict(val[3]), **dict(k)}))
                         if isinstance(val, Closure) or (isinstance(val, BoundFunc) and val.self_obj is None and not val.fi.is_method()):
                             # a function stored in the class body is a method: bound to the instance on access
                             return PyFn(f"bound {attr}", lambda a, k, val=val, obj=obj: self.call_callable(val, [obj] + list(a), dict(k)))
@@ -1020,7 +1126,7 @@ class MiniInterp:
             for c in ci.mro():
                 if attr in c.class_attrs and c.class_attrs[attr] is not None:
                     f0 = next(iter(c.methods.values()), fi)
-                    self.class_state[(c.qual, attr)] = self.ev(c.class_attrs[attr], {}, f0)
+                    self.class_state[(c.qual, attr)] = self.ev(c.class_attrs[attr], self.class_namespace(c), f0)
                     return self.class_state[(c.qual, attr)]
             raise Unknown(f"class attribute {attr}")
         if isinstance(obj, tuple) and obj and obj[0] == "external":
@@ -1168,6 +1274,13 @@ class MiniInterp:
             _, obj, attr = f
             if isinstance(obj, str) and attr in ("format", "format_map"):
                 return self.format_str(obj, args if attr == "format" else [], kwargs if attr == "format" else (args[0] if args else {}), n)
+            if isinstance(obj, DefaultDict) and attr in ("most_common", "total", "elements"):
+                if attr == "total":
+                    return sum(obj.values())
+                if attr == "elements":
+                    return _Iter([k for k, v in obj.items() for _ in range(max(v, 0))])
+                items = sorted(obj.items(), key=lambda kv: -kv[1])
+                return items[:args[0]] if args and args[0] is not None else items
             if isinstance(obj, list) and attr == "sort":
                 obj[:] = self.builtin("sorted", [list(obj)], dict(kwargs), n)
                 return None
@@ -1207,8 +1320,30 @@ class MiniInterp:
             return self.builtin(f[1], args, kwargs, n)
         if isinstance(f, tuple) and f and f[0] == "external":
             base = f[1].replace(":", ".").split(".")[-1]
-            if base in ("bisect", "bisect_left", "bisect_right"):
-                return getattr(_bisect, base)(list(args[0]), args[1])
+            if base in ("bisect", "bisect_left", "bisect_right", "insort", "insort_left", "insort_right") and f[1].replace(":", ".").split(".")[0] == "bisect":
+                seq, x = args[0], args[1]
+                if not isinstance(seq, list):
+                    raise Unknown("bisect on a non-list")
+                keyf = kwargs.get("key")
+                lo = kwargs.get("lo", args[2] if len(args) > 2 else 0)
+                hi = kwargs.get("hi", args[3] if len(args) > 3 else None)
+                hi = len(seq) if hi is None else hi
+                insert = base.startswith("insort")
+                kx = self.apply2(keyf, [x], {}) if (keyf is not None and insert) else x
+                left = base.endswith("_left")
+                while lo < hi:
+                    self.tick()
+                    mid = (lo + hi) // 2
+                    km = self.apply2(keyf, [seq[mid]], {}) if keyf is not None else seq[mid]
+                    go_right = self.compare(ast.Lt(), km, kx) if left else not self.compare(ast.Lt(), kx, km)
+                    if go_right:
+                        lo = mid + 1
+                    else:
+                        hi = mid
+                if insert:
+                    seq.insert(lo, x)
+                    return None
+                return lo
             if base == "deepcopy" and len(args) == 1:
                 return self.deepcopy(args[0])
             mod = f[1].replace(":", ".").split(".")[0]
@@ -1251,7 +1386,7 @@ class MiniInterp:
         if isinstance(f, tuple) and f and f[0] == "method":
             cands = [m for m in self.prj.methods_named(f[2])]
             if len(cands) == 1 and f[1].cls is None:
-                return self.call(self.prj.func(cands[0].qual), args, kwargs, f[1])
+                return self.call(self.prj.func(cands[0].qual, raw=True), args, kwargs, f[1])
             raise Unknown(f"method {f[2]} of {f[1]}")
         raise Unknown(f"call of marker {f[0]}")
 
@@ -1306,10 +1441,23 @@ class MiniInterp:
                 return (not self.truth(args[0])) if base == "not_" else self.truth(args[0])
             if base == "neg" and len(args) == 1:
                 return self.binop(ast.Sub(), 0, args[0], node)
+            arith = {"add": ast.Add, "sub": ast.Sub, "mul": ast.Mult, "floordiv": ast.FloorDiv, "mod": ast.Mod, "truediv": ast.Div,
+                     "or_": ast.BitOr, "and_": ast.BitAnd, "iadd": ast.Add, "isub": ast.Sub, "concat": ast.Add}
+            if base in arith and len(args) == 2:
+                return self.binop(arith[base](), args[0], args[1], node)
+            if base in ("is_", "is_not") and len(args) == 2:
+                return self.compare(ast.Is() if base == "is_" else ast.IsNot(), args[0], args[1])
+            if base == "getitem" and len(args) == 2:
+                return self.ev(ast.Subscript(value=ast.Name(id="__o", ctx=ast.Load()), slice=ast.Name(id="__k", ctx=ast.Load()), ctx=ast.Load()),
+                               {"__o": args[0], "__k": args[1]}, None)
+            if base == "index" and len(args) == 1 and isinstance(args[0], int):
+                return args[0]
         if mod == "functools":
             if base == "partial" and args:
                 f0, a0, k0 = args[0], list(args[1:]), dict(kwargs)
                 return PyFn("partial", lambda a, k: self.apply2(f0, a0 + list(a), {**k0, **k}))
+            if base == "partialmethod" and args:
+                return T("partialmethod", args[0], tuple(args[1:]), tuple(sorted(kwargs.items())))
             if base == "reduce" and len(args) >= 2:
                 xs = self.iterate(args[1])
                 if len(args) > 2:
@@ -1367,7 +1515,39 @@ class MiniInterp:
         if mod == "collections" and base == "deque":
             return Deque(self.iterate(args[0]) if args else [])
         if mod == "collections" and base == "defaultdict":
-            raise Unknown("collections.defaultdict")
+            d = DefaultDict()
+            d.factory = args[0] if args else None
+            if len(args) > 1:
+                src = args[1]
+                for k, v in (src.items() if isinstance(src, dict) else [tuple(self.iterate(x)) for x in self.iterate(src)]):
+                    d[self.key(k)] = v
+            for k, v in kwargs.items():
+                d[k] = v
+            return d
+        if mod == "collections" and base == "Counter":
+            d = DefaultDict()
+            d.counter = True
+            if args:
+                src = args[0]
+                if isinstance(src, dict):
+                    for k, v in src.items():
+                        d[k] = v
+                else:
+                    for x in self.iterate(src):
+                        k = self.key(x)
+                        try:
+                            d[k] = d.get(k, 0) + 1
+                        except TypeError:
+                            raise Unknown("Counter of unhashable symbolic values")
+            return d
+        if mod == "collections" and base == "OrderedDict":
+            d = {}
+            if args:
+                src = args[0]
+                for k, v in (src.items() if isinstance(src, dict) else [tuple(self.iterate(x)) for x in self.iterate(src)]):
+                    d[self.key(k)] = v
+            d.update(kwargs)
+            return d
         return NotImplemented
 
     def apply2(self, f, args, kwargs):
@@ -1550,7 +1730,7 @@ class MiniInterp:
         obj = Sym(ci.name + "()", _cls=ci)
         init = ci.find_method("__init__")
         if init is not None:
-            self.call(self.prj.func(init.qual), args, kwargs, obj)
+            self.call(self.prj.func(init.qual, raw=True), args, kwargs, obj)
             return obj
         fields = ci.dataclass_fields() if hasattr(ci, "dataclass_fields") else None
         if fields is None:
@@ -1569,7 +1749,7 @@ class MiniInterp:
             dk = (ci.qual, nm)
             if dk not in store:
                 anchor = next(iter(ci.methods.values()), None) or fi
-                store[dk] = self.ev(default, {}, self.prj.func(anchor.qual) if hasattr(anchor, "qual") and anchor.qual in self.prj.funcs else anchor)
+                store[dk] = self.ev(default, {}, self.prj.func(anchor.qual, raw=True) if hasattr(anchor, "qual") and anchor.qual in self.prj.funcs else anchor)
             spec[nm] = store[dk]
         init_names = [nm for nm in names if not (isinstance(spec.get(nm), T) and spec[nm][0] == "dcfield" and not spec[nm][3])]
         if len(args) > len(init_names):
@@ -1595,11 +1775,63 @@ class MiniInterp:
                 obj.fields[nm] = d
         post = ci.find_method("__post_init__")
         if post is not None:
-            self.call(self.prj.func(post.qual), [], {}, obj)
+            self.call(self.prj.func(post.qual, raw=True), [], {}, obj)
         return obj
+
+    def class_namespace(self, c) -> dict:
+        """names visible in the body of class c: its functions (plain functions there) and the class attributes evaluated so far"""
+        env = {nm: BoundFunc(m, None) for nm, m in c.methods.items()}
+        for (q, nm), v in self.class_state.items():
+            if q == c.qual:
+                env[nm] = v
+        return env
+
+    def has_attr(self, obj, name: str) -> bool:
+        if isinstance(obj, Sym):
+            if name in obj.fields:
+                return True
+            if obj.cls is not None:
+                if obj.cls.find_method(name) is not None:
+                    return True
+                if any(name in c.class_attrs or (c.qual, name) in self.class_state for c in obj.cls.mro()):
+                    return True
+                if obj.cls.external_bases() or obj.open:
+                    raise Unknown(f"hasattr({obj}, {name!r})")
+                return False
+            raise Unknown(f"hasattr({obj}, {name!r})")
+        if isinstance(obj, T) and obj[0] == "class":
+            ci = obj[1]
+            return ci.find_method(name) is not None or any(name in c.class_attrs or (c.qual, name) in self.class_state for c in ci.mro()) \
+                or any(nm == name for nm, _ in (self.enum_members(ci) or []))
+        if obj is None or type(obj) in (int, float, bool, str, bytes, list, dict, tuple):
+            return hasattr(obj, name)
+        raise Unknown(f"hasattr on {type(obj).__name__}")
 
     def builtin(self, name, args, kwargs, node):
         try:
+            if name in ("getattr", "hasattr") and len(args) >= 2 and isinstance(args[1], str) and not kwargs:
+                if name == "hasattr" and len(args) == 2:
+                    return self.has_attr(args[0], args[1])
+                if name == "getattr" and len(args) in (2, 3):
+                    obj = args[0]
+                    known = True
+                    if len(args) == 3 or (isinstance(obj, Sym) and obj.cls is not None and not obj.open):
+                        try:
+                            known = self.has_attr(obj, args[1])
+                        except Unknown:
+                            known = True
+                    if not known:
+                        if len(args) == 3:
+                            return args[2]
+                        raise PyRaise("AttributeError", node)
+                    r = self.getattr(obj, args[1], None, node)
+                    if isinstance(r, Sym) and r.parent is not None:
+                        r.parent[0].fields.pop(r.parent[1], None)
+                        r = T("method", r.parent[0], r.parent[1])
+                    return r
+            if name == "setattr" and len(args) == 3 and isinstance(args[1], str) and isinstance(args[0], Sym):
+                args[0].fields[args[1]] = args[2]
+                return None
             if name == "len":
                 if isinstance(args[0], T):
                     return len(self.iterate(args[0]))
@@ -1665,8 +1897,9 @@ class MiniInterp:
                 return _Iter(list(reversed(self.iterate(args[0]))))
             if name == "filter":
                 return _Iter([x for x in self.iterate(args[1]) if self.truth(x if args[0] is None else self.apply(args[0], [x]))])
-            if name == "map":
-                return _Iter([self.apply(args[0], [x]) for x in self.iterate(args[1])])
+            if name == "map" and len(args) >= 2:
+                cols = [self.iterate(a) for a in args[1:]]
+                return _Iter([self.apply(args[0], list(xs)) for xs in zip(*cols)])
             if name == "iter" and len(args) == 2:
                 out = []
                 while True:
@@ -1717,7 +1950,10 @@ class MiniInterp:
             fake = ast.Call(func=ast.Name(id="_", ctx=ast.Load()), args=[], keywords=[])
             return self.dispatch_marker(f, list(args), dict(kwargs), fake)
         if isinstance(f, BoundFunc):
-            return self.call(self.prj.func(f.fi.qual), args, kwargs, f.self_obj)
+            if f.self_obj is None and f.fi.is_method() and not f.fi.is_static() and not f.fi.is_classmethod() and args:
+                # a plain function of a class body called with the instance as first argument (Class.method(obj, ...))
+                return self.call(self.prj.func(f.fi.qual, raw=True), list(args[1:]), kwargs, args[0])
+            return self.call(self.prj.func(f.fi.qual, raw=True), args, kwargs, f.self_obj)
         if isinstance(f, Closure):
             if isinstance(f.node, ast.Lambda):
                 e2 = dict(f.env)
